@@ -301,6 +301,15 @@ def build_items(seed):
     items.append(Enum(fresh("E"), [Variant("V%d" % j, 'unit' if j % 50 else 'tuple', [] if j % 50 else [Field("e0", "u16")]) for j in range(200)]))
     items.append(Enum(fresh("E"), [Variant("V%d" % j, 'unit', []) for j in range(256)]))
     items.append(Enum(fresh("E"), [Variant("V%d" % j, 'unit', [], j if j in (0, 100) else None) for j in range(256)], use_discr=True))
+    # many variants with explicit discriminants that are NOT monotone in declaration order (a dispatch that
+    # assumes ascending tags - binary search, range tables - is only wrong here), both settings
+    for use in (True, False):
+        items.append(Enum(fresh("E"), [Variant("V%d" % j, 'unit', [], {5: 100, 30: 50}.get(j)) for j in range(40)], use_discr=use))
+        items.append(Enum(fresh("E"), [Variant("V%d" % j, 'unit', [], 63 - j) for j in range(64)], use_discr=use))
+        items.append(Enum(fresh("E"), [Variant("V%d" % j, 'unit', [], {0: 200, 20: 3}.get(j)) for j in range(33)], use_discr=use))
+    perm = list(range(256)); rnd.shuffle(perm)
+    items.append(Enum(fresh("E"), [Variant("V%d" % j, 'unit', [], perm[j]) for j in range(200)], use_discr=True))
+    items.append(Enum(fresh("E"), [Variant("V%d" % j, 'unit' if j % 7 else 'tuple', [] if j % 7 else [Field("e0", "u8")], (37 * j + 11) % 256) for j in range(100)], use_discr=True, repr_="u8"))
     # nesting enums and structs
     e_small = [it for it in items if it.kind == 'enum'][2].name
     items.append(Struct(fresh("N"), 'named', [Field("e", e_small), Field("es", "Vec<%s>" % e_small), Field("m", "BTreeMap<u8, %s>" % base[3].name)], derives_default=False))
